@@ -127,7 +127,9 @@ func b2i(b bool) int {
 }
 
 func genConv(c *hx.Ctx) {
-	r := c.Rng
+	// Fork: hx.NewRng(seed) of consecutive seeds yields the same SplitMix64 sequence shifted by one draw,
+	// and the generators re-synchronise after a few draws; the forked generator starts from a mixed state.
+	r := c.Rng.Fork()
 	random := 2
 	if c.Thorough() {
 		random = 40
